@@ -175,6 +175,14 @@ impl Check for C06 {
             o.dup_keys = k % 4 == 0;
             emit(Case::new("doc", doc::gen_doc(&mut r, &o)));
         }
+        // nested documents of every depth 1..64 (pretty indentation, node-buffer parent links)
+        for d in 1..=64usize {
+            if g.mine(d as u64) {
+                for _ in 0..(if g.tier == Tier::Quick { 2 } else { 40 }) {
+                    emit(Case::new("nested", doc::nested(&mut r, d)));
+                }
+            }
+        }
         let mut idx = 0;
         for f in 0..crate::mon::c03::CORPUS.len() {
             if g.mine(idx) && (g.scale >= 0.5 || f < 2) {
